@@ -43,13 +43,6 @@ theorem deref_mem {c : Conf} {s : State} (h : Inv c s) {y : Lease} (hy : y ∈ s
   rw [List.find?_append, find_id_mem h.idNodup hy]
   rfl
 
-theorem copyInto_len6 {a b : Bytes} (ha : a.length = 6) (hb : b.length = 6) : copyInto a b = b := by
-  unfold copyInto
-  rw [ha, hb]
-  have h1 : b.take 6 = b := List.take_of_length_le (by omega)
-  have h2 : a.drop 6 = [] := List.drop_eq_nil_of_le (by omega)
-  rw [h1, h2, List.append_nil]
-
 theorem findLease_some {mac : Bytes} {s : State} {l : Lease} (h : findLease mac s = some l) :
     l ∈ s.leases ∧ l.mac = mac := by
   unfold findLease at h
@@ -143,7 +136,7 @@ theorem Inv_setIP_same {c : Conf} {s : State} (h : Inv c s) {y : Lease} (hy : y 
 /-! ### a lease gets another hardware address (`copy(l.HWAddr, mac)`) -/
 
 theorem Inv_setMac {c : Conf} {s : State} {A B : List Lease} {l : Lease} (m : Bytes)
-    (h : Inv c { s with leases := A ++ l :: B }) (hlen : m.length = 6) (hm : ∀ y ∈ A ++ B, y.mac ≠ m) :
+    (h : Inv c { s with leases := A ++ l :: B }) (hm : ∀ y ∈ A ++ B, y.mac ≠ m) :
     Inv c { s with leases := A ++ { l with mac := m } :: B } := by
   have hmem : ∀ y, y ∈ A ++ { l with mac := m } :: B →
       ∃ y0 ∈ A ++ l :: B, y0.id = y.id ∧ y0.ip = y.ip ∧ y0.static = y.static ∧ y0.host = y.host ∧
@@ -167,11 +160,6 @@ theorem Inv_setMac {c : Conf} {s : State} {A B : List Lease} {l : Lease} (m : By
     intro hin
     rcases List.mem_map.1 hin with ⟨y, hy, hye⟩
     exact hm y hy hye
-  · intro y hy
-    obtain ⟨y0, hy0, _, _, _, _, hor⟩ := hmem y hy
-    rcases hor with hmm | rfl
-    · rw [hmm]; exact hlen
-    · exact h.macLen y0 hy0
   · intro y hy hs
     obtain ⟨y0, hy0, _, hi, hst, _⟩ := hmem y hy
     rw [← hi]; exact h.dynPool y0 hy0 (hst ▸ hs)
@@ -209,7 +197,7 @@ theorem Inv_setMac {c : Conf} {s : State} {A B : List Lease} {l : Lease} (m : By
 /-! ### `allocateLease` -/
 
 /-- What `allocateLease` returns, under the invariant, for a client without a lease. -/
-theorem allocate_spec {c : Conf} {s : State} {mac : Bytes} (h : Inv c s) (hlen : mac.length = 6)
+theorem allocate_spec {c : Conf} {s : State} {mac : Bytes} (h : Inv c s)
     (hmac : ∀ y ∈ s.leases, y.mac ≠ mac) :
     Inv c (allocateLease c mac s).1 ∧ (allocateLease c mac s).1.now = s.now ∧
     (allocateLease c mac s).1.disk = s.disk ∧
@@ -227,17 +215,16 @@ theorem allocate_spec {c : Conf} {s : State} {mac : Bytes} (h : Inv c s) (hlen :
       simp only []
       obtain ⟨hl, hst, _⟩ := findExpired_some hf
       obtain ⟨A, B, hs⟩ := List.append_of_mem hl
-      have hcp : copyInto l.mac mac = mac := copyInto_len6 (h.macLen l hl) hlen
-      have hupd : (s.update l.id (fun x => { x with mac := copyInto x.mac mac })) =
+      have hupd : (s.update l.id (fun x => { x with mac := mac })) =
           { s with leases := A ++ { l with mac := mac } :: B } := by
         unfold State.update
-        rw [hs, mapId_split (by rw [← hs]; exact h.idNodup), hcp]
+        rw [hs, mapId_split (by rw [← hs]; exact h.idNodup)]
       have h' : Inv c { s with leases := A ++ l :: B } := by rw [← hs]; exact h
       have hAB : ∀ y ∈ A ++ B, y.mac ≠ mac := by
         intro y hy
         exact hmac y (by rw [hs]; exact mem_middle.2 (.inr hy))
-      rw [hupd, hcp]
-      refine ⟨Inv_setMac mac h' hlen hAB, rfl, rfl, .inr ⟨_, A, B, rfl, rfl, rfl, hst, ?_⟩⟩
+      rw [hupd]
+      refine ⟨Inv_setMac mac h' hAB, rfl, rfl, .inr ⟨_, A, B, rfl, rfl, rfl, hst, ?_⟩⟩
       exact h.dynPool l hl hst
   | some ip =>
     simp only []
@@ -262,7 +249,7 @@ theorem allocate_spec {c : Conf} {s : State} {mac : Bytes} (h : Inv c s) (hlen :
       rw [hadd]
       simp only []
       refine ⟨?_, rfl, rfl, .inr ⟨_, s.leases, [], rfl, rfl, rfl, rfl, hip1, hip2⟩⟩
-      refine Inv_add (Inv_fresh h) hadd ?_ ?_ hlen ?_ ?_
+      refine Inv_add (Inv_fresh h) hadd ?_ ?_ ?_ ?_
       · exact hfree
       · exact hmac
       · simp [State.fresh]
